@@ -293,6 +293,8 @@ def gen_body(rng, node, depth, budget, opts):
                 node.entries.append([name, "value", list(inh[name][2]) + add])
                 items.append(["app", name, add])
         else:
+            if depth == 0:
+                continue        # the grammar has no value entries at file level
             cands = [x for x in VALUES if node.own(x) is None or node.own(x)[1] == "value"]
             if not cands:
                 continue
@@ -436,7 +438,7 @@ def plan_of(case):
                       {"do": "action", "vm": "a", "name": "start"}, {"do": "action_if_failed", "vm": "a", "name": "abort"}]
     case["probes"] = probes
     return {"prop": PROP, "steps": steps, "clock": {"per_instr_ns": 1000, "per_poll_ns": 100, "idle_jump": True},
-            "limits": {"max_instr": 400000, "max_events": 100000, "watchdog_s": 20}, "observe": {"visits": False, "slices": False}}
+            "limits": {"max_instr": 400000, "max_events": 100000, "watchdog_s": 6}, "observe": {"visits": False, "slices": False}}
 
 
 # ---------------------------------------------------------------------------------------------
@@ -527,6 +529,19 @@ def judge(case, hs):
             V.append(Violation("no-exception", "exception:api:%s" % e[7].split(":")[0].replace(" ", "_")[:40], "exception escaped sqfvm_call: %s" % e[7]))
     nchecks = 0
     fixed = True
+    # every generated text is well-formed: each load has to be accepted
+    loads = []
+    for e in ev:
+        if e[1] == "parse" and e[3] == "config":
+            loads.append(("parse", bool(e[4]), e[6] if len(e) > 6 else ""))
+        elif e[1] == "api" and e[2] == "load_config":
+            loads.append(("api", e[4] == 0, "code %s" % e[4]))
+        elif e[1] == "t" and e[4].startswith('["LOADED"'):
+            loads.append(("configparse", True, ""))
+    for i, (how, ok, msg) in enumerate(loads):
+        if not ok:
+            V.append(Violation("load", "load-rejected:%s" % how, "load %d (%s) of a well-formed text was rejected: %s\n%s" % (i + 1, how, msg, p_items(case["files"][i])[:600] if i < len(case["files"]) else "")))
+            return V
     for i in range(len(case["files"])):
         if i not in ended:
             V.append(Violation("terminates", "probe-not-finished:%s" % ("cycle-attempt" if case.get("cycle") is not None and i >= case["cycle"] else "plain"),
